@@ -195,8 +195,9 @@ func (c *regexpSimplifyChecker) walk(e syntax.Expr) {
 			out.WriteString("*")
 			c.score++
 		case "{0}":
-			if c.hasCapture(e.Args[0]) {
-				// Removing the operand would renumber the capture groups.
+			if c.hasCapture(e.Args[0]) || c.endsWithShortOctal() {
+				// Removing the operand would renumber the capture groups
+				// or let the following digits extend an octal escape.
 				c.walk(e.Args[0])
 				out.WriteString(rep)
 				break
@@ -205,6 +206,11 @@ func (c *regexpSimplifyChecker) walk(e syntax.Expr) {
 			c.score++
 		case "{1}":
 			c.walk(e.Args[0])
+			if c.endsWithShortOctal() {
+				// `\0{1}1` is not `\01`.
+				out.WriteString(rep)
+				break
+			}
 			c.score++
 		default:
 			c.walk(e.Args[0])
@@ -227,6 +233,9 @@ func (c *regexpSimplifyChecker) walk(e syntax.Expr) {
 
 	case syntax.OpCharClass:
 		s := c.simplifyCharClass(e)
+		if s != "" && s[0] >= '0' && s[0] <= '7' && c.endsWithShortOctal() {
+			s = "" // `\0[1]` is not `\01`
+		}
 		if s != "" {
 			c.out.WriteString(s)
 			c.score++
@@ -301,6 +310,19 @@ func (c *regexpSimplifyChecker) escapeIsLoadBearing(v string) bool {
 		return strings.HasSuffix(written, "[")
 	}
 	return false
+}
+
+// endsWithShortOctal reports whether the text written so far ends with
+// an octal escape that a following digit would extend.
+func (c *regexpSimplifyChecker) endsWithShortOctal() bool {
+	s := c.out.String()
+	digits := len(s) - len(strings.TrimRight(s, "01234567"))
+	if digits == 0 || digits > 2 {
+		return false
+	}
+	s = s[:len(s)-digits]
+	slashes := len(s) - len(strings.TrimRight(s, `\\`))
+	return slashes%2 == 1
 }
 
 // startsWithRepeatOp reports whether s begins with `{n}`, `{n,}` or `{n,m}`.
